@@ -21,6 +21,9 @@ pub enum Cwd {
     /// a workspace member below src-tauri (app/src-tauri/crates/member): the
     /// tauri.conf.json is found one or two levels up
     Member,
+    /// a directory directly below src-tauri (app/src-tauri/sub): the CLI finds the
+    /// configuration as `../tauri.conf.json`
+    Sub,
 }
 #[derive(Clone, Copy, Debug, PartialEq, Eq, PartialOrd, Ord, Serialize, Deserialize)]
 pub enum ConfSrc {
@@ -99,6 +102,8 @@ impl Setup {
             (Entry::Build, Cwd::Member, ConfSrc::Tauri),
             (Entry::Cli, Cwd::Member, ConfSrc::Flags),
             (Entry::Cli, Cwd::Member, ConfSrc::Standalone),
+            (Entry::Cli, Cwd::Sub, ConfSrc::Tauri),
+            (Entry::Build, Cwd::Sub, ConfSrc::Tauri),
         ] {
             v.push(Setup {
                 entry,
@@ -224,6 +229,11 @@ impl World {
                 let _ = fs::create_dir_all(&p);
                 p
             }
+            Cwd::Sub => {
+                let p = self.src_tauri().join("sub");
+                let _ = fs::create_dir_all(&p);
+                p
+            }
         }
     }
     pub fn out_dir(&self, s: &Setup) -> PathBuf {
@@ -298,12 +308,29 @@ impl World {
             Cwd::App => 1,
             Cwd::SrcTauri => 2,
             Cwd::Member => 4,
+            Cwd::Sub => 3,
         };
         let cwd_rel = match s.cwd {
             Cwd::App => "app",
             Cwd::SrcTauri => "app/src-tauri",
             Cwd::Member => "app/src-tauri/crates/member",
+            Cwd::Sub => "app/src-tauri/sub",
         };
+        if s.cwd == Cwd::Sub {
+            if target_rel_root == "app/src-tauri" {
+                return "..".into();
+            }
+            if let Some(rest) = target_rel_root.strip_prefix("app/src-tauri/") {
+                if !rest.starts_with("sub/") {
+                    return format!("../{}", rest);
+                }
+            }
+            if let Some(rest) = target_rel_root.strip_prefix("app/") {
+                if !rest.starts_with("src-tauri/") {
+                    return format!("../../{}", rest);
+                }
+            }
+        }
         if s.cwd == Cwd::Member {
             if target_rel_root == "app/src-tauri" {
                 return "../..".into();
@@ -340,6 +367,9 @@ impl World {
             (1, Cwd::Member) => "../../".into(),
             (2, Cwd::Member) => "../../../src-tauri".into(),
             (3, Cwd::Member) => "./../..".into(),
+            (1, Cwd::Sub) => "../".into(),
+            (2, Cwd::Sub) => "../../src-tauri".into(),
+            (3, Cwd::Sub) => "./..".into(),
             _ => plain,
         }
     }
